@@ -161,6 +161,60 @@ example :
 example : (newFieldMask Sites.asFound wS rS false [[36, 46, 108, 91, 44, 93]]).get?.isSome = true ∧
     (meaning Sites.asFound wS rS [[36, 46, 108, 91, 44, 93]]).isErr = true := by decide
 
+
+/-! ## JSON transport -/
+
+/-- **json_roundtrip.**  For a mask built from a regular, conflict-free, non-empty path list whose keys are
+`JsonSafe` (field ids fit int32 — and are non-negative while `head[f]` is unguarded —, indices fit int64, no
+string key is `"*"`): MarshalJSON succeeds, UnmarshalJSON of that tree (`JOut.toIn`: the stated assumption
+about strconv.Itoa/Quote followed by encoding/json) succeeds, and the new mask answers every query exactly as
+the path set prescribes — hence exactly as the original.  (Text stability — marshal twice, marshal after a
+round trip — is checked on the implementation by the harness oracle.) -/
+theorem json_roundtrip (cfg : Sites) (sch : Schema) (huniq : sch.uniqueIds = true)
+    (desc : Ty) (black : Bool) (paths : List Bytes) (ts : List ATree)
+    (hmean : meaning cfg sch desc paths = .ok ts)
+    (hnc : NoStarConflict (expandAll ts) = true)
+    (hnts : black = true → NoTerminalStar (expandAll ts) = true)
+    (hne : expandAll ts ≠ [])
+    (hsafe : JsonSafe cfg (expandAll ts) = true) :
+    ∃ m j m', newFieldMask cfg sch desc black paths = .ok m ∧ marshal m = .ok j ∧
+      unmarshal cfg (some j.toIn) = .ok m' ∧
+      ∀ (q : List QStep), q ≠ [] →
+        (∀ b, walk cfg (.some m) q = .ok b → b = Sel black (expandAll ts) q) ∧
+        (∀ b, walk cfg (.some m') q = .ok b → b = Sel black (expandAll ts) q) := by
+  unfold meaning at hmean
+  rw [Res.bind_eq_ok] at hmean
+  obtain ⟨d, hd, hmean⟩ := hmean
+  obtain ⟨m, hm, hrep⟩ := newMask_rep (cfg := cfg) (black := black) huniq (liftO_eq_ok.mp hd) paths
+    (Mask.zero.setIsBlack black) [] ts (Or.inl ⟨rfl, Mask.zero_fresh black⟩) hmean
+    (by simpa using (NoStarConflict_iff _).mp hnc)
+  simp only [List.nil_append] at hrep
+  have hr := hrep.rep hne
+  obtain ⟨j, hj, m', hm', hr'⟩ := json_roundtrip_rep (cfg := cfg) hr hsafe
+  refine ⟨m, j, m', hm, hj, hm', ?_⟩
+  intro q hq
+  constructor
+  · intro b hw
+    rw [Sel_eq_SelN hne]
+    exact walk_rep q d m _ b hr hnts (Or.inl hq) hw
+  · intro b hw
+    rw [Sel_eq_SelN hne]
+    exact walk_rep q d m' _ b hr' hnts (Or.inl hq) hw
+
+/-- the string key `"*"` is read back as the wildcard: `$.m{"*"}` selects one key before the round trip and
+every key after it (`Str("a")` under field 3: false before, true after) -/
+example :
+    ((newFieldMask Sites.asFound wS rS false [[36, 46, 109, 123, 34, 42, 34, 125]]).get?.map fun m =>
+      ((walk Sites.asFound (.some m) ([.field 3, .str [97]] : List QStep)).get?,
+       (marshal m).get?.map fun j => (unmarshal Sites.asFound (some j.toIn)).get?.map fun m' =>
+         (walk Sites.asFound (.some m') ([.field 3, .str [97]] : List QStep)).get?)) =
+    some (some false, some (some (some true))) := by decide
+
+/-- a mask built from no path marshals to type "Invalid", which UnmarshalJSON rejects -/
+example :
+    ((newFieldMask Sites.asFound wS rS false []).get?.map fun m =>
+      (marshal m).get?.map fun j => (unmarshal Sites.asFound (some j.toIn)).isErr) = some (some true) := by decide
+
 /-! ## panics -/
 
 /- **no_panic** — the full statement, FALSE on the tree as found (9 sites, witnesses below):
